@@ -76,6 +76,8 @@ func init() {
 		"io.CopyN":          specIOCopyN,
 		"(io.Reader).Read":  specIORead,
 		"slices.SortFunc":   specSlicesSortFunc,
+		"slices.SortedFunc": specSlicesSortedFunc,
+		"slices.Backward":   specSlicesBackward,
 		"strings.Compare":   specBytesCompare,
 		"cmp.Compare":       specCmpCompare,
 		"slices.Delete":     specSlicesDelete,
@@ -704,8 +706,10 @@ func specSlicesSortFunc(env *Env, recv *Val, args []Val, st *State, call *ast.Ca
 	st.assume(fmt.Sprintf("(forall ((%s Int) (%s Int)) (=> (and (<= 0 %s) (< %s %s) (< %s %s)) (<= %s 0)))", i, j, i, i, j, j, ln, r.T))
 	// same elements (both directions, skolemised)
 	f1, f2 := c.fresh("perm", "(Array Int Int)"), c.fresh("perminv", "(Array Int Int)")
-	st.assume(fmt.Sprintf("(forall ((%s Int)) (! (=> (and (<= 0 %s) (< %s %s)) (and (<= 0 (select %s %s)) (< (select %s %s) %s) (= (select %s %s) (select (arr_%s %s) (select %s %s))) (= (select %s (select %s %s)) %s))) :pattern ((select %s %s))))",
-		i, i, i, ln, f1, i, f1, i, ln, arr, i, s, sl.T, f1, i, f2, f1, i, i, arr, i))
+	st.assume(fmt.Sprintf("(forall ((%s Int)) (! (= (select %s (select %s %s)) %s) :pattern ((select %s %s))))", i, f2, f1, i, i, f1, i))
+	st.assume(fmt.Sprintf("(forall ((%s Int)) (! (= (select %s (select %s %s)) %s) :pattern ((select %s %s))))", i, f1, f2, i, i, f2, i))
+	st.assume(fmt.Sprintf("(forall ((%s Int)) (! (=> (and (<= 0 %s) (< %s %s)) (and (<= 0 (select %s %s)) (< (select %s %s) %s) (= (select %s %s) (select (arr_%s %s) (select %s %s))))) :pattern ((select %s %s))))",
+		i, i, i, ln, f1, i, f1, i, ln, arr, i, s, sl.T, f1, i, arr, i))
 	st.assume(fmt.Sprintf("(forall ((%s Int)) (! (=> (and (<= 0 %s) (< %s %s)) (and (<= 0 (select %s %s)) (< (select %s %s) %s) (= (select %s (select %s %s)) (select (arr_%s %s) %s)))) :pattern ((select (arr_%s %s) %s))))",
 		i, i, i, ln, f2, i, f2, i, ln, arr, f2, i, s, sl.T, i, s, sl.T, i))
 	c.trust("slices.SortFunc: in-place sort; result ordered by the comparison function and a permutation of the input")
@@ -845,4 +849,79 @@ func specBinarySearchFunc(env *Env, recv *Val, args []Val, st *State, call *ast.
 	}
 	c.trust("slices.BinarySearchFunc: returns a position in [0, len] and found only with a valid index; ordering facts are not assumed")
 	return Val{Tuple: []Val{idx, boolVal(found)}}
+}
+
+// slices.SortedFunc(seq, cmp): a new slice holding the sequence's elements ordered by cmp.
+func specSlicesSortedFunc(env *Env, recv *Val, args []Val, st *State, call *ast.CallExpr) Val {
+	c := env.c
+	sq, cmpf := args[0], args[1]
+	sig, ok := types.Unalias(env.subst(sq.Ty)).Underlying().(*types.Signature)
+	if !ok {
+		c.unsupported("slices.SortedFunc of non-seq")
+		return Val{}
+	}
+	ys := sig.Params().At(0).Type().Underlying().(*types.Signature)
+	et := env.subst(ys.Params().At(0).Type())
+	ss := env.sortOf(sq.Ty)
+	rt := types.NewSlice(et)
+	r := env.havoc(st, "sorted", rt)
+	rs := env.sortOf(rt)
+	ln := app(c.seqLenFn(ss), sq.T)
+	at := seqAtFn(c, env, ss, et, 0)
+	st.assume(eq(app("len_"+rs, r.T), ln))
+	st.assume(app("<=", "0", ln))
+	i, j := c.freshBound("i"), c.freshBound("j")
+	sub := *env
+	sub.noSafety = true
+	sub.qvars = append(append([]string(nil), env.qvars...), fmt.Sprintf("(%s Int)", i), fmt.Sprintf("(%s Int)", j))
+	sub.qnames = append(append([]string(nil), env.qnames...), i, j)
+	scratch := st.clone()
+	arr := app("arr_"+rs, r.T)
+	cv := sub.applyFuncValue(cmpf, []Val{{T: app("select", arr, i), Ty: et}, {T: app("select", arr, j), Ty: et}}, scratch, call)
+	for _, ex := range scratch.pc[len(st.pc):] {
+		if strings.Contains(ex, i) || strings.Contains(ex, j) {
+			if strings.HasPrefix(ex, "(! ") {
+				if k := strings.LastIndex(ex, " :pattern "); k > 0 {
+					ex = ex[3:k]
+				}
+			}
+			st.assume(fmt.Sprintf("(forall ((%s Int) (%s Int)) %s)", i, j, ex))
+		} else {
+			st.assumeOnce(ex)
+		}
+	}
+	st.assume(fmt.Sprintf("(forall ((%s Int) (%s Int)) (=> (and (<= 0 %s) (< %s %s) (< %s %s)) (<= %s 0)))", i, j, i, i, j, j, ln, cv.T))
+	f1, f2 := c.fresh("perm", "(Array Int Int)"), c.fresh("perminv", "(Array Int Int)")
+	// perm / perminv are mutually inverse on all integers (a permutation of [0,len) extended by
+	// the identity): unconditional inverse facts keep instantiation chains from growing
+	st.assume(fmt.Sprintf("(forall ((%s Int)) (! (= (select %s (select %s %s)) %s) :pattern ((select %s %s))))", i, f2, f1, i, i, f1, i))
+	st.assume(fmt.Sprintf("(forall ((%s Int)) (! (= (select %s (select %s %s)) %s) :pattern ((select %s %s))))", i, f1, f2, i, i, f2, i))
+	st.assume(fmt.Sprintf("(forall ((%s Int)) (! (=> (and (<= 0 %s) (< %s %s)) (and (<= 0 (select %s %s)) (< (select %s %s) %s) (= (select %s %s) (%s %s (select %s %s))))) :pattern ((select %s %s))))",
+		i, i, i, ln, f1, i, f1, i, ln, arr, i, at, sq.T, f1, i, arr, i))
+	st.assume(fmt.Sprintf("(forall ((%s Int)) (! (=> (and (<= 0 %s) (< %s %s)) (and (<= 0 (select %s %s)) (< (select %s %s) %s) (= (select %s (select %s %s)) (%s %s %s)))) :pattern ((%s %s %s))))",
+		i, i, i, ln, f2, i, f2, i, ln, arr, f2, i, at, sq.T, i, at, sq.T, i))
+	c.trust("slices.SortedFunc: a permutation of the sequence ordered by the comparison function")
+	return r
+}
+
+// slices.Backward(s): the (index, element) pairs of s from the last to the first.
+func specSlicesBackward(env *Env, recv *Val, args []Val, st *State, call *ast.CallExpr) Val {
+	c := env.c
+	sl := args[0]
+	et := elemOf(env.subst(sl.Ty))
+	// iter.Seq2[int, E]
+	yield := types.NewSignatureType(nil, nil, nil, types.NewTuple(types.NewVar(token.NoPos, nil, "", tInt), types.NewVar(token.NoPos, nil, "", et)), types.NewTuple(types.NewVar(token.NoPos, nil, "", tBool)), false)
+	seqT := types.NewSignatureType(nil, nil, nil, types.NewTuple(types.NewVar(token.NoPos, nil, "yield", yield)), nil, false)
+	ss := env.sortOf(seqT)
+	sv := c.fresh("backward", ss)
+	s := env.sortOf(sl.Ty)
+	env.rangeAssume(st, sl)
+	ln := app("len_"+s, sl.T)
+	at0 := seqAtFn(c, env, ss, tInt, 0)
+	at1 := seqAtFn(c, env, ss, et, 1)
+	i := c.freshBound("i")
+	st.assume(eq(app(c.seqLenFn(ss), sv), ln))
+	st.assume(fmt.Sprintf("(forall ((%s Int)) (! (and (= (%s %s %s) (- (- %s 1) %s)) (= (%s %s %s) (select (arr_%s %s) (- (- %s 1) %s)))) :pattern ((%s %s %s)) :pattern ((%s %s %s))))",
+		i, at0, sv, i, ln, i, at1, sv, i, s, sl.T, ln, i, at0, sv, i, at1, sv, i))
+	return Val{T: sv, Ty: seqT}
 }
